@@ -250,10 +250,42 @@ func c14(c *core.Ctx) {
 			}
 		}
 		// loop condition: len(p) < sig+enc+iv
+		// (in generateKeys or a private helper that receives the total as a parameter; `for len(p) < N` or
+		// `for { if len(p) >= N { break } }`, operands in either order)
 		okLoop := false
-		for _, cmp := range allCmps(genFn) {
-			if cmp.Op == token.LSS && strings.HasPrefix(ssax.Path(cmp.X), "len(") && ssax.Path(cmp.Y) == want["iv"][1] {
-				okLoop = true
+		total := want["iv"][1]
+		for _, g := range withHelpers(genFn) {
+			for _, cmp := range allCmps(g) {
+				x, y, op := cmp.X, cmp.Y, cmp.Op
+				if strings.HasPrefix(ssax.Path(y), "len(") {
+					x, y, op = y, x, ssax.SwapOp(op)
+				}
+				if !strings.HasPrefix(ssax.Path(x), "len(") || (op != token.LSS && op != token.GEQ) {
+					continue
+				}
+				if ssax.Path(y) == total {
+					okLoop = true
+				}
+				if p, isP := ssax.Strip(y).(*ssa.Parameter); isP && g != genFn {
+					idx := -1
+					for i, q := range g.Params {
+						if q == p {
+							idx = i
+						}
+					}
+					all, any := true, false
+					for _, cs := range ssax.Calls(genFn) {
+						if cs.Common().StaticCallee() == g && idx >= 0 && idx < len(cs.Common().Args) {
+							any = true
+							if ssax.Path(cs.Common().Args[idx]) != total {
+								all = false
+							}
+						}
+					}
+					if all && any {
+						okLoop = true
+					}
+				}
 			}
 		}
 		c.Ob("C14.layout", "uapolicy.generateKeys·derives at least sig+enc+iv bytes", c.P.Pos(genFn.Pos()), okLoop, "loop runs while len(p) < sig+enc+iv: "+boolStr(okLoop))
